@@ -174,8 +174,8 @@ def run_unit(seed=None, unit=None, tier="quick", stats=None):
     kinds = ("query", "mutation")
     if unit is not None:
         focus = unit.get("focus")
-    elif seed[2] % 4 == 3:
-        focus = "seriality"  # every fourth unit: mutation with all-async positions (oracle 5)
+    elif seed[2] % 2 == 1:
+        focus = "seriality"  # every second unit: mutation with all-async positions (oracle 5)
     if focus == "seriality":
         kinds = ("mutation",)
     scn = build_scenario(ptape, kinds=kinds, max_depth=5 if big else 4,
